@@ -606,6 +606,9 @@ class VarsManager(object):
         """
         if self.complex_vars[name] != True:  # if not polar (already xy)
             return
+        for l in self.same_list:
+            if name + "r" in l or name + "i" in l:
+                return  # a component is shared with other variables: keep polar
         r = self.variables[name + "r"]
         p = self.variables[name + "i"]
         x = r * tf.cos(p)
